@@ -46,6 +46,44 @@ def fn(P, suffix):
     return r[0] if r else None
 
 
+
+def mbtiles_format_rules(ck, P):
+    """the (format, compression) <-> MBTiles `format` string tables of writer and reader equal the spec table (MBTiles has no
+    compression field: the string implies it) — shared with C04"""
+    # MBTiles format strings
+    mw, mr = None, fn(P, "mbtiles::reader::MBTilesReader::load_meta_data")
+    for i in P.impls_of("::TilesWriterTrait"):
+        if i.get("self_adt", "").endswith("::MBTilesWriter"):
+            mw = P.impl_method(i, "write_to_path")
+    if ck.anchor("R-CODE", "mbtiles format table", [x for x in (mw, mr) if x], 2):
+        wtab = {}
+        for n in ir.walk_nodes(mw["body"]):
+            if n.get("k") == "match" and n["e"].get("k") == "tup":
+                for a in n["arms"]:
+                    p = a["pat"]
+                    if p.get("k") == "tuple" and len(p["ps"]) == 2 and all((x.get("q") or x.get("e", {}).get("q")) for x in p["ps"]):
+                        names = tuple(absint.vname(x.get("q") or x["e"]["q"]).rsplit("::", 1)[-1] for x in p["ps"])
+                        s = ir.const_eval_str(a["body"])
+                        if s:
+                            wtab[s] = names
+        rtab = {}
+        for n in ir.walk_nodes(mr["body"]):
+            if n.get("k") == "match":
+                for a in n["arms"]:
+                    p = a["pat"]
+                    if p.get("k") == "expr" and p["e"].get("lk") == "str" and p["e"]["v"] in wire.SPEC_CODES["mbtiles.format"]:
+                        asg = {}
+                        for y in ir.walk_nodes(a["body"]):
+                            if y.get("k") == "assign":
+                                v = [absint.vname(z["q"]).rsplit("::", 1)[-1] for z in ir.walk_nodes(y["r"]) if z.get("k") in ("path",) and z.get("dk", "").startswith("Ctor") and "Result" not in z["q"]]
+                                lt = ir.strip(y["l"]).get("t", "")
+                                role = "tile_format" if "TileFormat" in lt else ("compression" if "TileCompression" in lt else ir.place_str(y["l"]))
+                                asg[role] = v[0] if v else None
+                        rtab[p["e"]["v"]] = (asg.get("tile_format"), asg.get("compression"))
+        spec = wire.SPEC_CODES["mbtiles.format"]
+        ck.check(wtab == spec, "R-CODE", "mbtiles.format|writer", "writer maps (format, compression) to the MBTiles format strings %s" % sorted(wtab), "writer table %s differs from %s" % (wtab, spec), ir.loc(mw))
+        ck.check(rtab == spec, "R-CODE", "mbtiles.format|reader", "reader maps the format strings back to the same (format, compression)", "reader table %s differs from %s" % (rtab, spec), ir.loc(mr))
+
 def rules(ck, P):
     # ---------------- R-WIRE
     recs = [
@@ -147,39 +185,7 @@ def rules(ck, P):
         bad = {k: v for k, v in t1.items() if v != "" and t2.get(v) != k}
         ck.check(not bad and len(set(t1.values())) == len(t1), "R-CODE", ty + "|extension", "from_filename inverts extension() for all %d variants; extensions are distinct" % len(t1),
                  "extension round trip fails for %s (extension table %s, filename table %s)" % (bad, t1, t2), ir.loc(ex))
-    # MBTiles format strings
-    mw, mr = None, fn(P, "mbtiles::reader::MBTilesReader::load_meta_data")
-    for i in P.impls_of("::TilesWriterTrait"):
-        if i.get("self_adt", "").endswith("::MBTilesWriter"):
-            mw = P.impl_method(i, "write_to_path")
-    if ck.anchor("R-CODE", "mbtiles format table", [x for x in (mw, mr) if x], 2):
-        wtab = {}
-        for n in ir.walk_nodes(mw["body"]):
-            if n.get("k") == "match" and n["e"].get("k") == "tup":
-                for a in n["arms"]:
-                    p = a["pat"]
-                    if p.get("k") == "tuple" and len(p["ps"]) == 2 and all((x.get("q") or x.get("e", {}).get("q")) for x in p["ps"]):
-                        names = tuple(absint.vname(x.get("q") or x["e"]["q"]).rsplit("::", 1)[-1] for x in p["ps"])
-                        s = ir.const_eval_str(a["body"])
-                        if s:
-                            wtab[s] = names
-        rtab = {}
-        for n in ir.walk_nodes(mr["body"]):
-            if n.get("k") == "match":
-                for a in n["arms"]:
-                    p = a["pat"]
-                    if p.get("k") == "expr" and p["e"].get("lk") == "str" and p["e"]["v"] in wire.SPEC_CODES["mbtiles.format"]:
-                        asg = {}
-                        for y in ir.walk_nodes(a["body"]):
-                            if y.get("k") == "assign":
-                                v = [absint.vname(z["q"]).rsplit("::", 1)[-1] for z in ir.walk_nodes(y["r"]) if z.get("k") in ("path",) and z.get("dk", "").startswith("Ctor") and "Result" not in z["q"]]
-                                lt = ir.strip(y["l"]).get("t", "")
-                                role = "tile_format" if "TileFormat" in lt else ("compression" if "TileCompression" in lt else ir.place_str(y["l"]))
-                                asg[role] = v[0] if v else None
-                        rtab[p["e"]["v"]] = (asg.get("tile_format"), asg.get("compression"))
-        spec = wire.SPEC_CODES["mbtiles.format"]
-        ck.check(wtab == spec, "R-CODE", "mbtiles.format|writer", "writer maps (format, compression) to the MBTiles format strings %s" % sorted(wtab), "writer table %s differs from %s" % (wtab, spec), ir.loc(mw))
-        ck.check(rtab == spec, "R-CODE", "mbtiles.format|reader", "reader maps the format strings back to the same (format, compression)", "reader table %s differs from %s" % (rtab, spec), ir.loc(mr))
+    mbtiles_format_rules(ck, P)
 
     # ---------------- R-BLOCK
     lits = {}
